@@ -31,7 +31,8 @@ OUTS = ["'[%s]DATA'!B1", "'[%s]DATA'!B2", "'[%s]DATA'!B3", "'[%s]DATA'!B4", "'[%
         "'[%s]CALC'!A2", "'[%s]CALC'!A3", "'[%s]CALC'!A6", "'[%s]CALC'!B1", "'[%s]DATA'!C1:C2",
         "'[%s]DATA'!F1", "'[%s]DATA'!F2", "'[book2.xlsx]DATA'!B1", "'[book2.xlsx]DATA'!B2",
         "'[%s]CALC'!C1", "'[book2.xlsx]DATA'!C1", "'[book2.xlsx]DATA'!C2",       # cross-workbook references, both ways
-        "'[%s]CALC'!C3"]                                                        # through a sheet titled O'B %
+        "'[%s]CALC'!C3",                                                        # through a sheet titled O'B %
+        "'[%s]CALC'!C4"]                                                        # a cell of book2 that uses book2's own defined name
 NOUT = len(OUTS)
 
 
